@@ -195,9 +195,34 @@ func init() {
 				}
 				c.count("c02:trivial-key-try")
 			}
+			// the same ticket (same key) sealing ANOTHER session state — a refresh re-saves under the browser's ticket — must use a
+			// fresh AEAD nonce every time: the first 12 bytes of the stored entry never repeat and are never all zero
+			nonces := map[string]bool{}
+			rec := func(v string) {
+				if len(v) < 12 {
+					return
+				}
+				n := v[:12]
+				c.count("c02:entry-nonce")
+				if n == strings.Repeat("\x00", 12) || nonces[n] {
+					c.violation("C02", "a stored session entry re-sealed under the same ticket key reuses its AEAD nonce (entries sealed with one key and one nonce leak their plaintexts to anyone who can read the store)",
+						map[string]interface{}{"ticket": id, "nonce_hex": fmt.Sprintf("%x", n), "all_zero": n == strings.Repeat("\x00", 12), "repeated": nonces[n]})
+				}
+				nonces[n] = true
+			}
+			rec(val)
+			sess, lerr := e.proxy.sessionStore.Load(mustReq(e, b.cookieHeader()))
+			for k := 0; lerr == nil && k < 3; k++ {
+				sess.AccessToken = fmt.Sprintf("re-saved-%d-%d", i, k)
+				if serr := e.proxy.sessionStore.Save(&respRecorder{h: http.Header{}}, mustReq(e, b.cookieHeader()), sess); serr != nil {
+					break
+				}
+				v2, _ := e.mr.Get(id)
+				rec(v2)
+			}
 		}
 		e.close()
-		c.close([]string{"c02:ticket", "c02:trivial-key-try"})
+		c.close([]string{"c02:ticket", "c02:trivial-key-try", "c02:entry-nonce"})
 	})
 
 	registerSuite("saveconc", func(c *suiteCtx) {
